@@ -115,6 +115,69 @@ class Ctx:
             self.assumptions.append(text)
 
 
+class SubCtx:
+    """Runs (part of) another property's check as a prerequisite rule of this one: only the rules in
+    `allow` are kept and they are recorded under this check's rule id `alias`.  Findings that the source
+    property lists as known are left to the source check."""
+
+    def __init__(self, parent: Ctx, src_prop: str, allow: T.Iterable[str], alias: str):
+        self._p = parent
+        self._src = src_prop
+        self._allow = set(allow)
+        self._alias = alias
+        self._known = {k["key"] for k in load_known() if k.get("property") == src_prop and k.get("status") == "known"}
+        self.kept = 0
+
+    def __getattr__(self, name: str) -> T.Any:
+        return getattr(self._p, name)
+
+    def rule(self, rid: str, text: str) -> None:
+        pass
+
+    def ok(self, rule: str, what: str) -> None:
+        if rule in self._allow:
+            self.kept += 1
+            self._p.ok(self._alias, f"[{self._src}/{rule}] {what}")
+
+    def bad(self, rule: str, key: str, message: str, loc: str = "", witness: T.Any = None,
+            path: T.Optional[T.List[str]] = None, what: T.Optional[str] = None) -> None:
+        if rule not in self._allow:
+            return
+        if f"{self._src}/{rule} {key}" in self._known:
+            return
+        self.kept += 1
+        self._p.bad(self._alias, key, f"[{self._src}/{rule}] {message}", loc, witness, path, what=f"[{self._src}/{rule}] {what or key}")
+
+    def check(self, rule: str, cond: bool, what: str, key: str, message: str, loc: str = "",
+              witness: T.Any = None, path: T.Optional[T.List[str]] = None) -> bool:
+        if cond:
+            self.ok(rule, what)
+        else:
+            self.bad(rule, key, message, loc, witness, path, what=what)
+        return cond
+
+    def floor(self, rule: str, what: str, count: int, minimum: int) -> None:
+        if rule in self._allow:
+            self._p.floor(self._alias, f"[{self._src}/{rule}] {what}", count, minimum)
+
+    @property
+    def prop(self) -> str:
+        return self._src
+
+
+def run_prerequisite(ctx: Ctx, src_prop: str, allow: T.Iterable[str], alias: str) -> int:
+    """Run the rules `allow` of check `src_prop` inside ctx under rule id `alias`."""
+    mod = importlib.import_module(f"checks.{src_prop.lower()}")
+    sub = SubCtx(ctx, src_prop, allow, alias)
+    try:
+        mod.run(sub)
+    except AnalysisError:
+        if sub.kept == 0:
+            raise
+        # a later, unrelated rule of the source check gave up; the imported rules were already decided
+    return sub.kept
+
+
 def load_known() -> T.List[T.Dict[str, T.Any]]:
     if not os.path.exists(KNOWN_FILE):
         return []
